@@ -400,6 +400,17 @@ class MethodMixin:
     def b_getattr(self, a, k, n, f):
         if is_sym(a[1]):
             raise Unsupported('getattr with symbolic name')
+        if isinstance(a[0], ExcVal) and not hasattr(a[0].cls, a[1]):
+            # an attribute of an exception object raised by code outside the contracts: whether it was set there is unknown
+            at = a[0].__dict__.setdefault('attrs', {})
+            if a[1] in at:
+                return at[a[1]]
+            if self.path.branch(self.path.fresh(z3.BoolSort(), f'exc_has_{a[1]}')):
+                at[a[1]] = VObj(self.path.fresh(self.zs.zsort(api.Obj), f'exc_{a[1]}'))
+                return at[a[1]]
+            if len(a) > 2:
+                return a[2]
+            raise PyRaise(AttributeError, (a[1],), n, implicit=True)
         try:
             return self.getattr(a[0], a[1], n)
         except PyRaise as ex:
